@@ -69,11 +69,47 @@ def thread_prog(rng, pool, focus, profile, allow_delete, nops):
     return ops
 
 
-def case(rng, profile, types=None, orders=(4, 4, 4, 8, 2)):
+def deep_case(rng, profile, types=None):
+    """Tall trees (order 4, four to six levels) and wide nodes (order 16/32 with more than
+    eight children or pairs per node): the shapes depth- and width-dependent code needs.
+    Operations concentrate on the edges of the key range and on the boundaries between
+    subtrees, where descents take the first or last child at every level."""
+    ty = rng.choice(types or genseq.TYPES)
+    order, n = rng.choice([(4, 40), (4, 70), (4, 110), (4, 130), (16, 90), (16, 140), (32, 150), (8, 120)])
+    keys = genseq.asc_keys(ty, 2 * n + 8, rng)
+    main = keys[4:2 * n + 4:2]           # fillers exist between and outside the loaded keys
+    load = list(main)
+    mode = rng.choice(["asc", "asc", "desc", "shuf"])
+    if mode == "desc":
+        load.reverse()
+    elif mode == "shuf":
+        rng.shuffle(load)
+    lines = ["cbegin %s %d" % (ty, order)] + ["pre ins %s %d" % (k, i % 50) for i, k in enumerate(load)]
+    present = list(main)
+    if rng.random() < 0.5:
+        # thin out so that nodes sit at minimum occupancy
+        for k in rng.sample(main, rng.randrange(0, n // 3)):
+            lines.append("pre del %s" % k)
+            present.remove(k)
+    edge = keys[:6] + keys[-6:] + present[:4] + present[-4:]
+    f0 = rng.randrange(len(present))
+    focus = rng.choice([edge, edge, present[max(0, f0 - 3): f0 + 4], keys[2 * f0: 2 * f0 + 8] or edge])
+    nthreads = rng.choice([2, 2, 3])
+    for t in range(nthreads):
+        nops = rng.choice([1, 2, 2, 3])
+        lines.append("thread %d %s" % (t, " ; ".join(thread_prog(rng, keys, focus, profile, True, nops))))
+    return lines
+
+
+def case(rng, profile, types=None, orders=(4, 4, 4, 8, 2, 16)):
+    if rng.random() < 0.2:
+        return deep_case(rng, profile, types)
     ty = rng.choice(types or genseq.TYPES)
     order = rng.choice(orders)
     allow_delete = order != 2
     psize = rng.choice([8, 12, 20, 40, 80])
+    if order >= 16:
+        psize = max(psize, rng.choice([3, 6, 10]) * order)
     pool = genseq.key_pool(rng, ty, rng.choice(["small", "small", "wide", "extreme"]), psize)
     pre, present = prefix(rng, ty, order, pool, allow_delete)
     nthreads = rng.choice([2, 2, 2, 3, 3, 4])
@@ -85,6 +121,108 @@ def case(rng, profile, types=None, orders=(4, 4, 4, 8, 2)):
         nops = rng.choice([1, 1, 2, 2, 3, 4])
         lines.append("thread %d %s" % (t, " ; ".join(thread_prog(rng, pool, focus, profile, allow_delete, nops))))
     return lines
+
+
+def scaled_catalogue(types=None, shapes=((16, 10), (8, 5)), full=False):
+    """The cursor-next-to-Delete and point-op-next-to-Delete configurations of `catalogue`
+    at larger orders: a root with `nl` leaves at minimum occupancy (order/2 pairs), leaf j
+    under-flowing while a cursor crosses it from the left, rests on it, or readers and
+    writers work beside it; neighbours at minimum or one above. Explored under EVERY
+    schedule. By default each configuration is generated for one key type (rotating);
+    `full` generates all six."""
+    cases = []
+    tys = types or genseq.TYPES
+    ci = 0
+    for (o, nl) in shapes:
+        h = o // 2
+        for j in (1, nl // 2, nl - 2):
+            for rich in ("none", "left", "right"):
+                for cur_on in ("left", "child", "right"):
+                    for ty in (tys if full else [tys[ci % len(tys)]]):
+                        keys = genseq.asc_keys(ty, 2 * (nl * h + 1) + 4, __import__("random").Random(7))
+                        k = keys[2::2][:nl * h + 1]      # loaded keys; odd positions are fillers
+                        fill = keys[3::2]
+                        pre = ["pre ins %s %d" % (x, i % 50) for i, x in enumerate(k)] + ["pre del %s" % k[-1]]
+                        if rich == "left":
+                            pre.append("pre ins %s 0" % fill[(j - 1) * h])
+                        elif rich == "right":
+                            pre.append("pre ins %s 0" % fill[(j + 1) * h])
+                        start = {"left": k[(j - 1) * h], "child": k[j * h], "right": k[(j + 1) * h]}[cur_on]
+                        steps = " ; ".join(["scan ; pair"] * (h + 3))
+                        cur = "ns %s ; %s ; close" % (start, steps)
+                        cases.append(["cbegin %s %d" % (ty, o)] + pre + ["thread 0 " + cur, "thread 1 del %s" % k[j * h + 1], "strategy dfs", "cend"])
+                    ci += 1
+                for ty in (tys if full else [tys[ci % len(tys)]]):
+                    keys = genseq.asc_keys(ty, 2 * (nl * h + 1) + 4, __import__("random").Random(7))
+                    k = keys[2::2][:nl * h + 1]
+                    fill = keys[3::2]
+                    pre = ["pre ins %s %d" % (x, i % 50) for i, x in enumerate(k)] + ["pre del %s" % k[-1]]
+                    if rich == "left":
+                        pre.append("pre ins %s 0" % fill[(j - 1) * h])
+                    elif rich == "right":
+                        pre.append("pre ins %s 0" % fill[(j + 1) * h])
+                    cases.append(["cbegin %s %d" % (ty, o)] + pre + ["thread 0 get %s ; ins %s 5" % (k[(j + 1) * h], fill[j * h]),
+                                                                    "thread 1 del %s" % k[j * h], "strategy dfs", "cend"])
+                ci += 1
+    return cases
+
+
+def tall_catalogue(types=None, full=False, sizes=(9, 13, 17, 27)):
+    """Three- and four-level trees at order 4, explored under EVERY schedule: a Delete that
+    under-flows an internal node (borrow / merge one level above the leaves) and an Insert
+    that splits an internal node, each next to a reader, a cursor start or a writer heading
+    for the first or the last child."""
+    cases = []
+    tys = types or genseq.TYPES
+    ci = 0
+    for n in sizes:
+        for variant in range(6 if n <= 13 else 5):
+            ty = tys[ci % len(tys)]
+            ci += 1
+            keys = genseq.asc_keys(ty, 2 * n + 6, __import__("random").Random(7))
+            k = keys[2::2][:n]
+            fill = keys[3::2]
+            pre = ["pre ins %s %d" % (x, i % 50) for i, x in enumerate(k)]
+            last, first, mid = k[-1], k[0], k[n // 2]
+            beyond = keys[2 * n + 4]
+            if variant == 0:
+                th = ["thread 0 del %s" % k[1], "thread 1 get %s ; get %s" % (last, first)]
+            elif variant == 1:
+                th = ["thread 0 del %s" % k[n // 2 + 1], "thread 1 ns %s ; scan ; pair ; scan ; pair ; close" % mid]
+            elif variant == 2:
+                th = ["thread 0 ins %s 1 ; ins %s 2" % (beyond, fill[n - 1]), "thread 1 get %s ; get %s" % (last, k[n - 2])]
+            elif variant == 3:
+                th = ["thread 0 del %s ; del %s" % (last, k[n - 2]), "thread 1 ns %s ; scan ; pair ; close" % k[n - 3]]
+            elif variant == 4:
+                th = ["thread 0 upd %s ya1" % last, "thread 1 upd %s a1 ; get %s" % (last, last)]
+            else:
+                th = ["thread 0 ins %s 1" % fill[0], "thread 1 del %s" % first, "thread 2 get %s" % k[1]]
+            cases.append(["cbegin %s 4" % ty] + pre + th + ["strategy dfs", "cend"])
+    return cases
+
+
+def spine_cases(types=None, sizes=range(40, 140), nsched=3):
+    """Order-4 trees loaded with n ascending (or descending) keys for EVERY n in a range, so
+    that every combination of full / non-full nodes along the right (left) spine of a four-
+    to six-level tree occurs; an Update, an Insert and a yielding Update then extend the
+    spine while a reader and a cursor work at the same edge. A few random schedules each:
+    the per-acquisition oracles and the event-log tie see every descent."""
+    cases = []
+    tys = types or genseq.TYPES
+    for n in sizes:
+        for side in ("right", "left"):
+            ty = tys[(n + (side == "left")) % len(tys)]
+            keys = genseq.asc_keys(ty, n + 12, __import__("random").Random(7))
+            k = keys[6:n + 6]
+            load = k if side == "right" else list(reversed(k))
+            out = keys[n + 6:n + 12] if side == "right" else list(reversed(keys[:6]))
+            edge = load[-1]
+            pre = ["pre ins %s %d" % (x, i % 50) for i, x in enumerate(load)]
+            cases.append(["cbegin %s 4" % ty] + pre + [
+                "thread 0 upd %s a1 ; ins %s 1 ; upd %s ya1 ; upd %s a1" % (out[0], out[1], out[2], out[3]),
+                "thread 1 get %s ; ns %s ; scan ; pair ; close ; upd %s a1" % (edge, load[-3], out[4]),
+                "strategy random %d %d" % (1000 + n, nsched), "cend"])
+    return cases
 
 
 def _keys18(ty):
